@@ -80,7 +80,11 @@ InvWallops(S) == S.wallops = {n \in DOMAIN S.users : "w" \in S.users[n].modes}
 InvEmptyChan(S) == \A x \in DOMAIN S.chans : S.chans[x].members # <<>> \/ S.chans[x].preconf
 InvInvited(S) == \A n \in DOMAIN S.users : \A x \in S.users[n].invited : TRUE
 
+(* every user record is held by a live connection: whatever the bookkeeping by nickname says, a record whose *)
+(* connection is gone is a trace left behind (C06)                                                          *)
+InvTrace(S) == \A n \in DOMAIN S.users : S.users[n].host \in DOMAIN S.conns
 InvTags(S) ==
+    (IF InvTrace(S) THEN {} ELSE {Tag("inv", "trace", "", "")}) \cup
     (IF InvSym(S) THEN {} ELSE {Tag("inv", "sym", "", "")})
     \cup (IF InvOwner(S) THEN {} ELSE {Tag("inv", "owner", "", "")})
     \cup (IF InvCounters(S) THEN {} ELSE {Tag("inv", "counters", "", "")})
@@ -145,7 +149,7 @@ Owns(P, x, g) ==
                       ((IsOut(g) /\ g.a = "r" /\ g.b \in {"PRIVMSG", "NOTICE"} /\ ~x.restricted) \/ IsSt(g))
       [] P = "C02" -> \/ (g.t = "inv" /\ g.a = "owner")
                       \/ (IsSt(g) /\ g.a = "users" /\ g.b \in {"domain", "host", "src", "uname"}
-                                  /\ (v \in (RegVerbs \cup Endings \cup {"NICK"})) /\ ~(x.authed /\ v = "NICK" /\ g.b = "src"))
+                                  /\ (v \in (RegVerbs \cup Endings \cup {"NICK", "KILL"})) /\ ~(x.authed /\ v = "NICK" /\ g.b = "src"))
                       \/ (IsSt(g) /\ g.a = "conns" /\ g.b \in {"authed", "nick", "hasq"})
                       \/ (IsSt(g) /\ g.a = "users" /\ g.b = "foreign" /\ v \notin {"KILL", "DIE", "SQUIT"})
                       \/ (~x.authed /\ IsOut(g) /\ g.a = "r")
@@ -159,8 +163,9 @@ Owns(P, x, g) ==
                       \/ (x.authed /\ ~x.perr /\ ~x.hidden /\ v \in {"NAMES", "WHO", "WHOIS"} /\ IsOut(g) /\
                             g.b \in {"353", "366", "352", "315", "319"} /\ g.d \in {"-s", "-o"})
       [] P = "C05" -> g.t = "run" /\ g.a \in {"dead", "panic", "issue", "closed", "otherclosed", "unregistered"}
-      [] P = "C06" -> ((x.authed /\ v \in Endings) \/ (x.authed /\ ~x.perr /\ v \in {"KILL", "DIE", "SQUIT"})) /\
-                      (IsSt(g) \/ (IsOut(g) /\ g.b \in {"EOF", "ERROR"}))
+      [] P = "C06" -> \/ (g.t = "inv" /\ g.a = "trace")
+                      \/ (((x.authed /\ v \in Endings) \/ (x.authed /\ ~x.perr /\ v \in {"KILL", "DIE", "SQUIT"})) /\
+                             (IsSt(g) \/ (IsOut(g) /\ g.b \in {"EOF", "ERROR"})))
       [] P = "C07" -> x.authed /\ ~x.perr /\ v = "JOIN" /\
                       ((IsOut(g) /\ g.b \in {"475", "474", "473", "471", "405", "JOIN"})
                        \/ Membership(g) \/ (IsSt(g) /\ g.a = "users" /\ g.b = "invited"))
